@@ -1,5 +1,6 @@
 """C05 - inspector memory is bounded by a constant, whatever the stream claims."""
 import json
+import os
 import re
 
 import common
@@ -44,6 +45,8 @@ def compressible_big(rng, quick):
     """streams longer than the bound whose bulk is one run (so the protocol line stays small)"""
     out = []
     sizes = [700 * G.K, (1 << 20) + 640 * G.K] if quick else [700 * G.K, 2 << 20, 6 << 20]
+    if os.environ.get('VERIF_AMBIENT'):
+        sizes = sizes[-1:] if quick else sizes[:2]          # ambient children: one size, still longer than every bound
     for n in sizes:
         head_t = G.rand_text(rng, 1500)
         text = head_t + b'a' * (n - len(head_t) - 1) + b'\n'
@@ -136,7 +139,7 @@ def correspondence(ctx):
     budget = dict(BUDGET['quick' if ctx.quick else 'thorough'])
     budget['total'] = G.scale(ctx, budget['total'])
     pairs, spent = [], 0
-    imgs = G.thin(ctx, c05_images(ctx, rng), lambda i: (i.fmt, '/'.join(i.tag.split('/')[:2])))
+    imgs = G.thin(ctx, c05_images(ctx, rng), lambda i: (i.fmt, i.tag.split('/')[0]))
     # cheap streams first, so that the total model budget is never used up before they are reached
     imgs.sort(key=lambda i: (i.tag.startswith('big/'), len(i.data) > 64 * G.K))
     for img in imgs:
@@ -404,7 +407,7 @@ def search(ctx, seeds, full=False):
         return fails
     rounds = (2 if full else 1) if ctx.quick else (5 if full else 4)
     for _ in range(rounds):
-        for img in G.thin(ctx, c05_images(ctx, rng, for_search=True), lambda i: (i.fmt, '/'.join(i.tag.split('/')[:2]))):
+        for img in G.thin(ctx, c05_images(ctx, rng, for_search=True), lambda i: (i.fmt, i.tag.split('/')[0])):
             if clock.expired():
                 return fails
             ctx.count('search/' + '/'.join(img.tag.split('/')[:2]))
